@@ -226,6 +226,20 @@ def run_raw_ops(ops):
     return polls, err
 
 
+def probe_generic_kind():
+    """Which LocalBackend._resume_trial does the tree under test have?  Runs the minimal witness of
+    F-C02-1 on the real backend: 'Legacy' if the report written in the PAUSE window is returned by the
+    first poll after resume_trial (code before patches/F-C02-1.diff), else 'Generic'."""
+    ops = [("start", [(1.0, 0), (2.0, 1)]), ("emit", 0, 1), ("fetch", [0]), ("pause", 0, 1),
+           ("resume", 0, [(3.0, 100)]), ("emit", 0, 1), ("fetch", [0])]
+    polls, err = run_raw_ops(ops)
+    last = [v for _, v in polls[-1][0]] if polls and err is None else None
+    return "Legacy" if last == [1, 100] else "Generic"
+
+
+GENERIC_KIND = ["Generic"]
+
+
 def raw_cases(ctx, replay):
     rng = ctx.rng
     if replay is not None:
@@ -244,14 +258,14 @@ def raw_cases(ctx, replay):
         ctx.h("raw_error", err or "none")
         for o in ops:
             ctx.h("raw_op", o[0])
-        terms.append(seq_term("Generic", ops, [], polls, err))
+        terms.append(seq_term(GENERIC_KIND[0], ops, [], polls, err))
         meta.append(dict(kind="raw", ops=[list(o) for o in ops], impl_polls=polls, impl_error=err))
     if terms:
         ctx.sample(dict(kind="raw TrialBackend operations", ops=meta[0]["ops"][:8], impl_polls=meta[0]["impl_polls"][:4]))
         for i in ctx.coq_bad_cases("raw", IMPORTS, PRELUDE, "chk_seq", terms, shard=125):
             ctx.violation("correspondence", "model Fetch.v (Generic) differs from TrialBackend on a raw operation sequence",
                           case=meta[i], failing_input=False,
-                          broken="correspondence chk_seq (model/Fetch.v fetch_generic / t_pause / t_stop / t_resume)")
+                          broken="correspondence chk_seq (model/Fetch.v fetch_generic / t_pause / t_stop / t_resume, kind %s)" % GENERIC_KIND[0])
 
 
 # ----------------------------------------------------------------------------------------------
@@ -626,7 +640,7 @@ def tuner_cases(ctx, replay, sim):
                 what = "%s: %s %s" % (sig["backend"], event, detail)
             ctx.violation("property", what, case=dict(rcase, first_bad=detail), signature=sig)
             break
-        terms.append(seq_term("Sim" if sim else "Generic", obs["evs"], obs["out"], obs["polls"], None, tuner=True))
+        terms.append(seq_term("Sim" if sim else GENERIC_KIND[0], obs["evs"], obs["out"], obs["polls"], None, tuner=True))
         meta.append(dict(rcase, impl_out=obs["out"], impl_polls=obs["polls"], events=[list(e) for e in obs["evs"]]))
     if terms:
         ctx.sample(dict(kind=kind, W=meta[0]["W"], n_polls=meta[0]["n_polls"], events=meta[0]["events"][:10],
@@ -746,6 +760,11 @@ def run(ctx, replay=None):
     old = os.environ.get("SYNETUNE_FOLDER")
     os.environ["SYNETUNE_FOLDER"] = tmp
     try:
+        GENERIC_KIND[0] = probe_generic_kind()
+        ctx.notes.append("LocalBackend._resume_trial of the tree under test follows model kind %s (%s)" % (
+            GENERIC_KIND[0], "patch F-C02-1 present: theorems about Generic apply" if GENERIC_KIND[0] == "Generic"
+            else "code before patch F-C02-1: c02_nothing_after_decision_refuted_legacy applies, finding F-C02-1 expected"))
+        ctx.h("generic_model_kind", GENERIC_KIND[0])
         if replay is None:
             for case in load_corpus():
                 tuner_cases(ctx, case, sim=case["kind"] == "tuner_sim")
